@@ -7,6 +7,7 @@ import (
 	"testing"
 
 	"github.com/ErdemOzgen/blackdagger/verifharness/rep"
+	"github.com/ErdemOzgen/blackdagger/verifharness/retrysim"
 	"github.com/ErdemOzgen/blackdagger/verifharness/sim"
 	"pgregory.net/rapid"
 )
@@ -81,6 +82,14 @@ func TestProp(t *testing.T) {
 	rapid.Check(t, func(t *rapid.T) { check(t, sim.Gen(t, opts())) })
 }
 
+// TestRetryRun: the ordering invariant in a run that retries a recorded run
+// ("any run"): re-executed steps wait for re-executed dependencies, kept steps
+// count as finished with their recorded result. Only the order clause is judged.
+func TestRetryRun(t *testing.T) {
+	retrysim.OnlyOrder = true
+	rapid.Check(t, func(t *rapid.T) { retrysim.Check(t, ID, "retryrun", retrysim.Gen(t)) })
+}
+
 func TestReplay(t *testing.T) {
 	p := rep.ReplayPath()
 	if p == "" {
@@ -89,6 +98,17 @@ func TestReplay(t *testing.T) {
 	cf, err := rep.LoadCase(p)
 	if err != nil {
 		t.Fatal(err)
+	}
+	if cf.Sub == "retryrun" {
+		retrysim.OnlyOrder = true
+		var rc retrysim.Case
+		if err := json.Unmarshal(cf.Case, &rc); err != nil {
+			t.Fatal(err)
+		}
+		for i := 0; i < 20; i++ {
+			retrysim.Check(t, ID, "retryrun", rc)
+		}
+		return
 	}
 	var c sim.Case
 	if err := json.Unmarshal(cf.Case, &c); err != nil {
